@@ -7,6 +7,7 @@ import Proofs.Metadata
 import Props.C08
 import Proofs.ParserMulti
 import Proofs.Accept
+import Proofs.Accept2
 import Facts.Generated
 namespace C10
 open Esdt
@@ -250,9 +251,106 @@ theorem handover_continuation_accepted (envS envD : Env) (cS : Call) (ctxS ctxS'
   refine ⟨tr, _, hout, by rw [hdata, parseCall_encodeCall _ _ (by decide) (by decide)], ?_⟩
   exact handover_delivery_accepted envD _ ctxD tok _ hnf rfl rfl hprev hsnd hdst roles hroles hlen
 
--- PARTIAL: "the destination shard's function of the same name accepts the continuation" for the TRANSFER functions (a liveness-style statement about a
--- successful result: refusals for frozen / paused / non-payable / other-hash destinations are legitimate) is decided by the
--- C10 oracle (real parser run on every accepted transfer call and compared with the ledger diff; every emitted message
--- delivered) and the correspondence check.
+/-- FULL (ESDTTransfer; "… and the other shard's function of the same name accepts the continuation", with the
+    property's own exceptions): a cross-shard ESDTTransfer that succeeded on the sender's shard — the user's
+    transaction itself, or the message a contract's call emitted: in both cases caller, receiver and ARGUMENTS of the
+    sender-side call (`emitted_data_form`, `delivery_carries_debited_amount`) — when executed on the destination's shard
+    SUCCEEDS and credits exactly the debited amount, provided the destination's entry is a well-formed fungible entry
+    (C15), the gate passes (entry not frozen, token not paused) and, where payability has to be verified, the oracle says
+    yes.  Total correctness: not "if it succeeds".  The converse — frozen / paused / not payable DO refuse — is
+    C04.gate_blocks and C09.esdtTransfer_credit_admissible; a refused delivery is refunded, and the refund never refused
+    (C01.refund_never_rejected).  Any call type, any gas, with or without an attached call. -/
+theorem esdtTransfer_continuation_accepted (envS envD : Env) (cS cD : Call) (ctxS ctxS' ctxD : Ctx) (outS : VMOutput)
+    (hs : present envS.nshards envS.self cS.caller = true) (hd : present envS.nshards envS.self cS.rcv = false)
+    (hS : esdtTransfer envS cS ctxS = .ok (outS, ctxS'))
+    (hcaller : cD.caller = cS.caller) (hrcv : cD.rcv = cS.rcv) (hargs : cD.args = cS.args) (hval : cD.callValue = 0)
+    (hnet : envD.nshards = envS.nshards)
+    (hsndD : present envD.nshards envD.self cD.caller = false) (hdstD : present envD.nshards envD.self cD.rcv = true)
+    (hnf : ctxD.failAt = none)
+    (t : Token) (v : Int)
+    (ht : ∀ tok, cS.args[0]? = some tok → tokenOf (ctxD.accts.read cD.rcv (esdtKeyPrefix ++ tok)) = some t ∧
+      GatePasses ctxD.accts cD.rcv (esdtKeyPrefix ++ tok) t cD.rae)
+    (hty : t.type = 0) (hv : t.value = some v) (hv0 : 0 ≤ v)
+    (hpay : mustVerifyPayable cD 2 = true → envD.payable cD.rcv = .yes)
+    (hlen : ∀ q : Int, (encToken { t with value := some q }).length < two63) :
+    ∃ tok amt outD ctxD', cS.args[0]? = some tok ∧ cS.args[1]? = some amt ∧
+      esdtTransfer envD cD ctxD = .ok (outD, ctxD') ∧ outD.rc = 0 ∧
+      ctxD'.accts = ctxD.accts.write cD.rcv (esdtKeyPrefix ++ tok)
+        (storedForm { t with value := some (v + (beNat amt : Int)) }) := by
+  obtain ⟨tok, amt, _, _, h0, h1, hz, _, _⟩ := C01.esdtTransfer_sender_exact envS cS ctxS ctxS' outS hs hd hS
+  have hmeta : shardOf envD.nshards cD.rcv ≠ metaShard := by
+    rw [hnet, hrcv]; exact (esdtTransfer_not_to_metachain envS cS ctxS).elim hS
+  obtain ⟨rest, hshape⟩ := args_cons2 h0 h1
+  obtain ⟨htok, hgate⟩ := ht tok h0
+  obtain ⟨outD, ctxD', hD, hrc, hw⟩ := esdtTransfer_delivery_accepted envD cD ctxD tok amt rest (by rw [hargs, hshape]) hz hval
+    hsndD hdstD hmeta hnf t v htok hty hv hv0 hgate hpay (hlen _)
+  exact ⟨tok, amt, outD, ctxD', h0, h1, hD, hrc, hw⟩
+
+/-- FULL (ESDTNFTTransfer; same clause): the message a successful cross-shard sender-side ESDTNFTTransfer emitted —
+    parsed back from its data with the call parser — when executed on the destination's shard SUCCEEDS and stores the
+    SENDER's entry with `Value := carried + held`, provided the destination's slot under that (token, nonce) is empty or
+    decodes (C15), the gates pass for what the destination holds and for the arriving entry (not frozen, not paused),
+    payability is confirmed where it has to be verified, and the destination does not hold the same nonce with ANOTHER
+    hash (the property's list of legitimate refusals, nothing else).  `t` is the sender's entry before the call; sizes
+    within Go's limits (`TokenOK`, as for every codec round trip). -/
+theorem nftTransfer_continuation_accepted (envS envD : Env) (cS cD : Call) (ctxS ctxS' ctxD : Ctx) (outS : VMOutput)
+    (hself : cS.caller = cS.rcv) (hpres : present envS.nshards envS.self cS.caller = true)
+    (hx : ∀ d, cS.args[3]? = some d → envS.self ≠ shardOf envS.nshards d)
+    (hS : esdtNFTTransfer envS cS ctxS = .ok (outS, ctxS'))
+    (hne : cD.caller ≠ cD.rcv) (hval : cD.callValue = 0)
+    (hdeliver : ∀ dst tr, outS.outAccts = [{ addr := dst, transfers := [tr] }] →
+      cD.rcv = dst ∧ parseCall tr.data = .ok (cD.fn, cD.args))
+    (hsndD : present envD.nshards envD.self cD.caller = false) (hdstD : present envD.nshards envD.self cD.rcv = true)
+    (hnf : ctxD.failAt = none)
+    (hok : ∀ t q, decToken (ctxS.accts.read cS.caller
+        (nftKey (esdtKeyPrefix ++ (cS.args[0]?).getD []) (u64 (beNat ((cS.args[1]?).getD []))))) = some t →
+        TokenOK { t with value := some q })
+    (hpay : mustVerifyPayable cD 4 = true → envD.payable cD.rcv = .yes)
+    (cur : Token) (cv : Int) (hcv : cur.value = some cv)
+    (hdest : ∀ tok nb qb t m, cS.args[0]? = some tok → cS.args[1]? = some nb → cS.args[2]? = some qb →
+      decToken (ctxS.accts.read cS.caller (nftKey (esdtKeyPrefix ++ tok) (u64 (beNat nb)))) = some t → t.md = some m →
+      tokenOf (ctxD.accts.read cD.rcv (nftKey (esdtKeyPrefix ++ tok) m.nonce)) = some cur ∧
+      (∀ cm, cur.md = some cm → cm.hash = m.hash) ∧
+      GatePasses ctxD.accts cD.rcv (esdtKeyPrefix ++ tok) cur cD.rae ∧
+      GatePasses ctxD.accts cD.rcv (esdtKeyPrefix ++ tok) t cD.rae ∧
+      GatePasses ctxD.accts cD.rcv (nftKey (esdtKeyPrefix ++ tok) m.nonce) t cD.rae ∧
+      0 < (beNat qb : Int) + cv ∧
+      (encToken { t with value := some ((beNat qb : Int) + cv) }).length < two63) :
+    ∃ tok nb qb t m outD ctxD', cS.args[0]? = some tok ∧ cS.args[1]? = some nb ∧ cS.args[2]? = some qb ∧
+      decToken (ctxS.accts.read cS.caller (nftKey (esdtKeyPrefix ++ tok) (u64 (beNat nb)))) = some t ∧ t.md = some m ∧
+      esdtNFTTransfer envD cD ctxD = .ok (outD, ctxD') ∧ outD.rc = 0 ∧
+      ctxD'.accts = ctxD.accts.write cD.rcv (nftKey (esdtKeyPrefix ++ tok) m.nonce)
+        (encToken { t with value := some ((beNat qb : Int) + cv) }) := by
+  have hS' : esdtNFTTransferSender envS cS ctxS = .ok (outS, ctxS') :=
+    (nftTransfer_sender_path envS cS ctxS hself).elim hS
+  obtain ⟨tok, nb, qb, dst, t, v, h0, h1, h2, h3, _, _, hw, tr, hout, hdata⟩ :=
+    (nftTransferSender_crossShard_effect envS cS ctxS hpres hx).elim hS'
+  obtain ⟨hrcv, hparse⟩ := hdeliver dst tr hout
+  rw [hdata, parseCall_encodeCall _ _ (by decide) (by decide)] at hparse
+  injection hparse with hparse
+  have hargs : cD.args = cS.args.take 3 ++ [encToken { t with value := some (beNat qb : Int) }] ++
+      (if cS.args.length > 4 then cS.args.drop 4 else []) := (Prod.mk.inj hparse).2.symm
+  -- the sender's entry carries metadata (the sender-side lookup refuses an entry without, nonce > 0)
+  obtain ⟨rest3, hshape⟩ : ∃ rest, cS.args = tok :: nb :: qb :: rest := args_cons3' h0 h1 h2
+  have hargs' : cD.args = tok :: nb :: qb :: encToken { t with value := some (beNat qb : Int) } ::
+      (if cS.args.length > 4 then cS.args.drop 4 else []) := by
+    rw [hargs, hshape]; rfl
+  have htok : TokenOK { t with value := some (beNat qb : Int) } := by
+    apply hok; rw [h0, h1]; exact hw.old
+  have hdec := C08.wire_roundtrip t (beNat qb : Int) htok
+  obtain ⟨m, hm⟩ : ∃ m, t.md = some m := Option.isSome_iff_exists.mp hw.hasMeta
+  obtain ⟨hcur, hhash, hg1, hg2, hg3, hpos, hlen⟩ := hdest tok nb qb t m h0 h1 h2 hw.old hm
+  obtain ⟨outD, ctxD', hD, hrc, hwr⟩ := esdtNFTTransfer_delivery_accepted envD cD ctxD tok nb qb _ _ hargs' hval hne hsndD hdstD
+    hnf { t with value := some (beNat qb : Int) } cur m (beNat qb : Int) cv hdec hm hpay hcur hhash hg1 hg2 hg3 rfl hcv hpos hlen
+  exact ⟨tok, nb, qb, t, m, outD, ctxD', h0, h1, h2, hw.old, hm, hD, hrc, hwr⟩
+
+/-- non-vacuity of the destination-side premises: on a destination that holds nothing and a shard where nothing is
+    paused the gate passes and the slot reads as the empty fungible entry -/
+example (a k : Bytes) : GatePasses [] a k fungibleDefault false ∧ tokenOf (Accts.read [] a k) = some fungibleDefault :=
+  ⟨Or.inr (Or.inr ⟨rfl, rfl⟩), rfl⟩
+
+-- PARTIAL: the same clause for MultiESDTNFTTransfer deliveries (per item one of the two cases above; the loop is not
+-- yet composed into a total-correctness statement) is decided by the C10 oracle (every emitted message delivered; a
+-- refusal must be one of the legitimate ones) and the correspondence check.
 
 end C10
